@@ -13,9 +13,12 @@ KNOWN_TAGS = {"f8": "not_over_and_without_native_negation",
 
 
 def penv(softptr):
-    """the soft-delete model of a harness process: value-typed or pointer-typed deleted-at field"""
+    """the soft-delete model of a harness process: value-typed deleted-at field (False / 0), pointer-typed
+    (True / 1), or two soft-delete fields ("two" / 2)"""
     env = dict(lib.GOENV)
-    if softptr:
+    if softptr in ("two", 2):
+        env["VERIF_SOFTPTR"] = "two"
+    elif softptr:
         env["VERIF_SOFTPTR"] = "1"
     return env
 
@@ -139,7 +142,7 @@ def check(prop, w, tier, t0):
 
         def rep(j):
             out = os.path.join(d, "obs%d.ndjson" % j)
-            lib.run([vh, "cond-replay", "-cases", cf, "-out", out, "-mode", mode, "-from", str(j * step), "-to", str(min(nthis, (j + 1) * step))], timeout=7000, env=penv(j % 2 == 1))
+            lib.run([vh, "cond-replay", "-cases", cf, "-out", out, "-mode", mode, "-from", str(j * step), "-to", str(min(nthis, (j + 1) * step))], timeout=7000, env=penv(j % 3))
             rows = lib.read_ndjson(out)
             os.remove(out)
             return rows
@@ -153,7 +156,7 @@ def check(prop, w, tier, t0):
 
     def rnd(j):
         out = os.path.join(d, "r%d.ndjson" % j)
-        lib.run([vh, "cond-random", "-out", out, "-mode", mode, "-n", str(nrand // nproc), "-seed", str(sd * 1000 + j)], timeout=7000, env=penv(j % 2 == 1))
+        lib.run([vh, "cond-random", "-out", out, "-mode", mode, "-n", str(nrand // nproc), "-seed", str(sd * 1000 + j)], timeout=7000, env=penv(j % 3))
         rows = lib.read_ndjson(out)
         os.remove(out)
         return rows
